@@ -3,7 +3,7 @@ import copy
 from .. import common, gen, mergecorr, oracles, t2
 from . import base
 
-THEOREMS = ['C04_defaults', 'C04_exact', 'C04_exact_list', 'C04_remove_key', 'C04_clear']
+THEOREMS = ['C04_defaults', 'C04_exact', 'C04_exact_list', 'C04_remove_key', 'C04_clear', 'C04_merge_marks_refine', 'C04_merge_list_elementwise', 'C04_class_checker_sound']
 PLAIN = gen.PROFILES['plain']
 
 
@@ -263,6 +263,65 @@ def in_domain(case):
     return True
 
 
+def add_merge_tags(n, rng, p=0.35, depth=0):
+    t = n[1]
+    if n[0] in ('map', 'seq') and t is None and rng.random() < (p if n[0] == 'seq' else p / 3):
+        t = '!merge'
+    if n[0] == 'map':
+        return ('map', t, [(k, add_merge_tags(c, rng, p, depth + 1)) for k, c in n[2]])
+    if n[0] == 'seq':
+        return ('seq', t, [add_merge_tags(c, rng, p, depth + 1) for c in n[2]])
+    return n
+
+
+def spec_m_corr(rep, rng, n):
+    """the SPEC of C04_merge_marks_refine against the implementation: tag-free documents followed by documents whose only tags are !merge
+    marks (on lists and mappings, any depth).  The stages are handed to Coq as the trees the real loader built (all raw flags), so the
+    class checker newt_b and the decoration mp_of are computed from what the implementation produced; Coq folds Spec.UpdateM.upd_m and
+    compares with the data (or MergeError) Builder.build returned.  A disagreement is a concrete failing input of the property."""
+    from awesomeyaml import errors
+    from .C08 import strip_tags
+    from .. import ser
+    PL = gen.PROFILES['plain']
+    items, shown = [], []
+    for _ in range(n):
+        docs = [gen.gen_doc(rng, PL, root_tag_ok=False)]
+        for _ in range(rng.choice([1, 1, 2])):
+            d = strip_tags(gen.related_doc(rng, PL, docs[-1]))
+            docs.append(add_merge_tags(d, rng))
+        texts = [gen.render(d) for d in docs]
+        try:
+            b = mergecorr.parse_stages(texts)
+            intern = ser.Interner()
+            stage_terms = [ser.node_term(st, intern) for st in b.stages]
+        except Exception:
+            continue
+        try:
+            got = ('ok', base.to_plain(b.build()))
+        except errors.MergeError:
+            got = ('merge-error', None)
+        except Exception as e:
+            got = ('other:' + type(e).__name__, None)
+        exp = f'(Some {ser.plain_term(got[1], intern)})' if got[0] == 'ok' else ('None' if got[0] == 'merge-error' else '(Some (PS SNone))')
+        items.append(f'({ser.coq_list(stage_terms)}, {exp})')
+        shown.append(dict(texts=texts, implementation=got[0]))
+        rep.count('!merge spec: implementation ' + got[0].split(':')[0])
+    hdr = 'From AY Require Import Model.Eq Spec.Update Spec.UpdateM Proofs.MergeMode.\nOpen Scope Z_scope.\n'
+    inclass = 'fun c : list node * option plain => forallb newt_b (fst c)'
+    chk = ('fun c : list node * option plain => if forallb newt_b (fst c) then match fst c with [] => true | s0 :: sts => '
+           'match fold_left (fun acc o => do a <- acc; upd_m a (mp_of o)) sts (Ok (erase s0)), snd c with Ok r, Some x => plain_eqb r x | Err _ _, None => true | _, _ => false end end else true')
+    bad, errors_, wall, cmd = common.run_case_files('c04m', hdr, items, chk, shard=150)
+    rep.checker_cmds.append(cmd)
+    out, errors2, _, _ = common.run_case_files('c04k', hdr, items, inclass, shard=150)
+    rep.count('!merge spec: histories inside the theorem class NewT (judged)', len(items) - len(out))
+    rep.count('!merge spec: histories outside the class (not judged)', len(out))
+    rep.oblige(f'T3 correspondence fold of Spec.UpdateM.upd_m (decoration and class membership computed from the loaded trees) = Builder.build on {len(items) - len(out)} histories with !merge marks (data or MergeError)',
+               not bad and not errors_ and not errors2 and len(items) - len(out) > 0, (f'{len(bad)} disagreements' if bad else '') + (errors_[0]['log'][-400:] if errors_ else ''))
+    for i in bad[:3]:
+        rep.violation('the implementation differs from the decorated update on documents with !merge marks', dict(oracle='upd_m spec', input=dict(spec=True, **shown[i])))
+    rep.extra.setdefault('correspondence', []).append(dict(label='upd_m spec', cases=len(items), in_class=len(items) - len(out), disagreements=len(bad), coq_wall_s=round(wall, 1)))
+
+
 def run(rep, tier, rng):
     rep.rule = ('(a) merge histories over !del/!merge/priority tags (correspondence); (b) structured scenarios: a deleting node (mapping tagged !del, or a list) placed at a random '
                 'existing path of a random base document incl. below list indices and with key names reused from ancestors; protected !force entries; !merge lists; value-less !del; !clear. '
@@ -272,6 +331,7 @@ def run(rep, tier, rng):
     n = 400 if tier == 'quick' else 6000
     cases = base.merge_t3(rep, rng, ['del', 'all', 'del'], n, 'del', 2, 4,
                           extra_cases=[("{r: {a: {r: 1, y: 2}}}", "{r: {a: !del {r: !weak 3}}}"), ("{k: {a: !call:f {x: 1}, b: 2}}", "{k: !del {b: 3}}")])
+    spec_m_corr(rep, rng, 250 if tier == 'quick' else 4000)
     scen = []
     for _ in range(600 if tier == 'quick' else 10000):
         c = gen_case(rng)
